@@ -1,10 +1,142 @@
-"""numpy comparison contracts (np.all / allclose / array_equal) -- filled in by the object engine."""
-from .core import OutOfReach, VBuiltin
+"""numpy comparison contracts used by the __eq__ methods (C14): array_equal, allclose, all, elementwise ==."""
+import z3
+
+from .core import (And, B, I, If, Implies, Not, Or, OutOfReach, VBuiltin, VFloat, VList, conc, eq, is_int, rng, zbool, zint)
+
+close = z3.Function("close", I, I, B)          # |x - y| within numpy's default tolerance (uninterpreted)
+
+
+def close_axioms(ctx):
+    from .npmodel import isnan
+    x, y = z3.Const("cx", I), z3.Const("cy", I)
+    ctx.axiom_once("close", z3.And(z3.ForAll([x], z3.Implies(z3.Not(isnan(x)), close(x, x))),
+                                   z3.ForAll([x, y], z3.Implies(z3.Or(isnan(x), isnan(y)), z3.Not(close(x, y)))),
+                                   z3.ForAll([x, y], close(x, y) == close(y, x))))
+
+
+class VNdBool:
+    """boolean array (result of an elementwise comparison)"""
+
+    def __init__(self, shape, get):
+        self.shape, self.get = tuple(shape), get
+
+
+def as_array(interp, x):
+    """(shape tuple, get(*idx) -> term, kind) for arrays, integer lists, scalars"""
+    from .npmodel import VNd, as_int
+    if isinstance(x, VNd):
+        if x.fields is not None or x.dt.kind == "obj":
+            raise OutOfReach("comparison of structured / object arrays")
+        return x.shape, x.get, x.dt.kind
+    if isinstance(x, VList):
+        if x.items is not None:
+            vals = [as_int(interp, v) for v in x.items]
+            if not all(is_int(v) for v in vals):
+                raise OutOfReach("comparison of a list of non-integers")
+            from .core import Seq
+            s = Seq.of(vals)
+            return (len(vals),), (lambda i: s.get(i)), "i8"
+        probe = x.at(z3.Int("probe!arr"))
+        if not is_int(as_int(interp, probe)):
+            raise OutOfReach("comparison of a list of non-integers")
+        return (x.n,), (lambda i: as_int(interp, x.at(i))), "i8"
+    if isinstance(x, VFloat):
+        return (), (lambda: x.w), x.kind
+    if is_int(x):
+        return (), (lambda: x), "i8"
+    if isinstance(x, (tuple, list)):
+        vals = [as_int(interp, v) for v in x]
+        if all(is_int(v) for v in vals):
+            from .core import Seq
+            s = Seq.of(vals)
+            return (len(vals),), (lambda i: s.get(i)), "i8"
+    raise OutOfReach(f"array comparison of {type(x).__name__}")
+
+
+def _same_shape(sa, sb):
+    if len(sa) != len(sb):
+        return False
+    return And(*[eq(a, b) for a, b in zip(sa, sb)])
+
+
+def _forall_items(ctx, shape, body):
+    idx = [z3.Const(f"ae{d}!{ctx.uid()}", I) for d in range(len(shape))]
+    if not idx:
+        return zbool(body())
+    inb = And(*[rng(0, i, s) for i, s in zip(idx, shape)])
+    return z3.ForAll(idx, z3.Implies(zbool(inb), zbool(body(*idx))))
+
+
+def word_eq(kind_a, a, kind_b, b, equal_nan, approx=False):
+    from .npmodel import isnan
+    fl = kind_a in ("f4", "f8", "py") or kind_b in ("f4", "f8", "py")
+    if not fl:
+        return eq(a, b)
+    a, b = zint(a), zint(b)
+    same = close(a, b) if approx else a == b
+    base = And(Not(isnan(a)), Not(isnan(b)), same)
+    return Or(base, And(isnan(a), isnan(b))) if equal_nan else base
+
+
+def array_equal(interp, a, b, equal_nan=False, approx=False):
+    ctx = interp.ctx
+    close_axioms(ctx)
+    if a is None or b is None:
+        return a is None and b is None
+    sa, ga, ka = as_array(interp, a)
+    sb, gb, kb = as_array(interp, b)
+    ss = _same_shape(sa, sb)
+    if ss is False:
+        if approx:
+            raise OutOfReach("allclose with broadcasting")
+        return False
+    items = _forall_items(ctx, sa, lambda *i: word_eq(ka, ga(*i), kb, gb(*i), equal_nan, approx))
+    if approx and conc(ss) is not True:
+        # shapes that differ broadcast or raise in numpy: only equal shapes are modelled
+        if not ctx.entails(ss):
+            raise OutOfReach("allclose of arrays whose shapes may differ")
+    return And(ss, items)
 
 
 def numpy_ns(interp):
-    def nope(name):
-        def f(interp, a, k):
-            raise OutOfReach(f"np.{name} is not modelled here")
-        return VBuiltin("np." + name, f)
-    return {n: nope(n) for n in ("all", "allclose", "array_equal", "isnan", "any")}
+    def b_array_equal(interp, a, k):
+        return array_equal(interp, a[0], a[1], equal_nan=_flag(interp, k.get("equal_nan", a[2] if len(a) > 2 else False)))
+
+    def b_allclose(interp, a, k):
+        return array_equal(interp, a[0], a[1], equal_nan=_flag(interp, k.get("equal_nan", False)), approx=True)
+
+    def b_all(interp, a, k):
+        x = a[0]
+        if isinstance(x, VNdBool):
+            return _forall_items(interp.ctx, x.shape, lambda *i: x.get(*i))
+        if isinstance(x, bool) or isinstance(x, z3.BoolRef):
+            return x
+        raise OutOfReach("np.all of a non-boolean array")
+
+    def b_isnan(interp, a, k):
+        from .npmodel import isnan, VNd
+        x = a[0]
+        if isinstance(x, VNd):
+            return VNdBool(x.shape, lambda *i: isnan(zint(x.get(*i))))
+        if isinstance(x, VFloat):
+            return isnan(zint(x.w))
+        raise OutOfReach("np.isnan")
+    return {"array_equal": VBuiltin("np.array_equal", b_array_equal), "allclose": VBuiltin("np.allclose", b_allclose),
+            "all": VBuiltin("np.all", b_all), "isnan": VBuiltin("np.isnan", b_isnan)}
+
+
+def _flag(interp, v):
+    c = conc(v) if not isinstance(v, bool) else v
+    if c is None:
+        raise OutOfReach("symbolic equal_nan flag")
+    return bool(c)
+
+
+def elementwise_eq(interp, a, b):
+    """a == b on arrays: boolean array (equal shapes only)"""
+    sa, ga, ka = as_array(interp, a)
+    sb, gb, kb = as_array(interp, b)
+    ss = _same_shape(sa, sb)
+    if ss is False or not interp.ctx.entails(ss):
+        raise OutOfReach("elementwise == of arrays whose shapes may differ")
+    return VNdBool(sa, lambda *i: word_eq(ka, ga(*i), kb, gb(*i), False))
